@@ -170,6 +170,11 @@ class Run:
         self.inconclusive = [o for o in obls if o.kind in ("cover", "canary") and o.status == "unknown"]
         if self.inconclusive:
             self.sink.obls = obls = [o for o in obls if o not in self.inconclusive]
+        # undecided witnesses of a listed finding are inconclusive, never alarms
+        wu = [o for o in obls if o.meta.get("finding_witness") and o.status != "discharged"]
+        if wu:
+            self.inconclusive = getattr(self, "inconclusive", []) + wu
+            self.sink.obls = obls = [o for o in obls if o not in wu]
         bad = [o for o in obls if o.status != "discharged"]
         violations = []
         undecided = []
@@ -254,7 +259,7 @@ class Run:
         for o in unk:
             if o.status is None:
                 o.status = "unknown"
-        unk = [o for o in obls if o.status == "unknown" and o.kind not in ("cover", "canary")][:8]
+        unk = [o for o in obls if o.status == "unknown" and o.kind not in ("cover", "canary") and not o.meta.get("finding_witness")][:8]
         for o in unk:
             o.status = None
         if unk:
